@@ -25,6 +25,7 @@ RULE = (
     "object on which only the latest simulate and the calls after it are replayed (times, field, returned arrays "
     "and interpolator values must be identical). Non-trivial = the history contains a recovery call, a later "
     "simulate and then a recovery/interpolator call. Distinct = hash of (configuration, history)."
+    " Grids B and C may also be continuations of A (first time exactly equal to A's last)."
 )
 ASSUMPTIONS = [
     "identical means numpy.array_equal (the computation is deterministic)",
@@ -67,11 +68,14 @@ def config(draw):
     A = grid(na)
     # B and C are often *related* to A (shared end points, shared interior points, equal values, prefix, extension,
     # subsample): what an incremental / warm-start / "grid unchanged?" shortcut would have to tell apart
-    mode_b = draw(st.sampled_from(["independent", "same-ends", "jitter-some", "equal", "same-ends"]))
+    mode_b = draw(st.sampled_from(["independent", "same-ends", "jitter-some", "equal", "same-ends", "continuation"]))
     if mode_b == "independent":
         B = grid(na)
     elif mode_b == "equal":
         B = list(A)
+    elif mode_b == "continuation":
+        # a history run in segments: B starts exactly where A ended (each simulate starts from the undisturbed reservoir)
+        B = [float(x) for x in A[-1] + np.concatenate([[0.0], np.cumsum([draw(st.floats(1e-3, 2.0)) for _ in range(na - 1)])])]
     elif mode_b == "same-ends":
         w = sorted(draw(st.floats(0.0, 1.0)) for _ in range(na - 2))
         B = [A[0]] + [A[0] + (A[-1] - A[0]) * (0.02 + 0.96 * (k + 1 + v) / na) for k, v in enumerate(w)] + [A[-1]]
@@ -81,7 +85,7 @@ def config(draw):
         for k in range(1, na - 1):
             if draw(st.booleans()):
                 B[k] = float(B[k - 1] + (A[k + 1] - B[k - 1]) * draw(st.floats(0.05, 0.95)))
-    mode_c = draw(st.sampled_from(["independent", "prefix", "extension", "subsample", "same-ends"]))
+    mode_c = draw(st.sampled_from(["independent", "prefix", "extension", "subsample", "same-ends", "continuation"]))
     if mode_c == "prefix" and na > 3:
         C = list(A[: draw(st.integers(3, na - 1))])
     elif mode_c == "extension":
@@ -91,6 +95,8 @@ def config(draw):
         C = list(A[::2])
         if len(C) == na:
             C = C[:-1]
+    elif mode_c == "continuation":
+        C = [float(x) for x in A[-1] + np.concatenate([[0.0], np.cumsum([draw(st.floats(1e-3, 2.0)) for _ in range(nc - 1)])])]
     elif mode_c == "same-ends":
         C = [float(x) for x in np.linspace(A[0], A[-1], nc)]
     else:
